@@ -261,7 +261,7 @@ def render_items(items, lay, depth, out):
         elif k == "member":
             out.append(render_cmd("cpp_constructor" if it["ctor"] else "cpp_member",
                                   [it["name"], it["cls"]] + it["types"], lay, ind))
-            _render_impl(it, [_impl_name(it), "self"], lay, depth, out, ind)
+            _render_impl(it, [_impl_name(it), it["impl"].get("selfname", "self")], lay, depth, out, ind)
         elif k in ("test", "section"):
             out.append(render_cmd("ct_add_test" if k == "test" else "ct_add_section", test_args(it), lay, ind))
             _render_impl(it, [_impl_name(it)], lay, depth, out, ind)
